@@ -232,12 +232,13 @@ theorem upd_step {d : Bytes} {s : PState} (h : FP d s) {obj : Nat} (ho : live s.
     (hm : (f (slot s.tree obj)).opcode = (slot s.tree obj).opcode ∨
       (isK (slot s.tree obj).opcode = false ∧ isK (f (slot s.tree obj)).opcode = false) := by exact Or.inl rfl)
     (hn : isK (slot s.tree obj).opcode = true → (f (slot s.tree obj)).name = (slot s.tree obj).name ∧
-      (f (slot s.tree obj)).tableHandle = (slot s.tree obj).tableHandle := by intro _; exact ⟨rfl, rfl⟩) :
+      (f (slot s.tree obj)).tableHandle = (slot s.tree obj).tableHandle := by intro _; exact ⟨rfl, rfl⟩)
+    (hv : isK (slot s.tree obj).opcode = true → (f (slot s.tree obj)).infoIndex = (slot s.tree obj).infoIndex := by intro _; rfl) :
     ∃ s1, updObj obj f s = .ok ((), s1) ∧ FP d s1 ∧ PayOnly obj s s1 ∧ slot s1.tree obj = f (slot s.tree obj) ∧
       s1.r = s.r := by
   have hlt := live_lt ho
   have sl := sameLinks_setAt s.tree obj f hf hl
-  refine ⟨_, updObj_ex f hlt, ?_, PayOnly.ofSetAt obj s f hf hl hm hn, ?_, rfl⟩
+  refine ⟨_, updObj_ex f hlt, ?_, PayOnly.ofSetAt obj s f hf hl hm hn hv, ?_, rfl⟩
   · exact ⟨h.inv, treeG_setAt h.tree obj f hf hl (fun _ => hinfo),
       fun x hx => by show live (setAt s.tree obj f) x = true; rw [sl.live]; exact h.scopes x hx⟩
   · show slot (setAt s.tree obj f) obj = _
@@ -424,13 +425,14 @@ theorem setOpcode_tot {d : Bytes} {s : PState} (h : FP d s) {obj : Nat} (ho : li
   exact ⟨(), s1, e1, h1, hp1, hr1, hsl⟩
 
 theorem finishSimpleArg_tot {d : Bytes} {s : PState} (h : FP d s) {obj : Nat} (ho : live s.tree obj = true) (res : PRes)
-    (hinfo : InfoOK (pOpcodeTableIndex (slot s.tree obj).opcode true)) :
+    (hinfo : InfoOK (pOpcodeTableIndex (slot s.tree obj).opcode true)) (hcur : isK (slot s.tree obj).opcode = false) :
     ∃ a s', finishSimpleArg obj res s = .ok (a, s') ∧ a = (some obj, res) ∧ FP d s' ∧ PayOnly obj s s' ∧ s'.r = s.r ∧
       (slot s'.tree obj).value = (slot s.tree obj).value := by
   unfold finishSimpleArg
   refine bind_ex (getObj_live ho) ?_
   obtain ⟨s1, e1, h1, hp1, hsl, hr1⟩ := upd_step h ho
     (fun o' => { o' with infoIndex := pOpcodeTableIndex (slot s.tree obj).opcode true }) (by keeps_links) Iff.rfl hinfo
+    (Or.inl rfl) (fun _ => ⟨rfl, rfl⟩) (fun hq => by rw [hcur] at hq; cases hq)
   refine bind_ex e1 (pure_ex ⟨rfl, h1, hp1, hr1, by rw [hsl]⟩)
 
 theorem simpleNum_tot {d : Bytes} {s : PState} (h : FP d s) {obj : Nat} (ho : live s.tree obj = true) (op n : Nat)
@@ -445,7 +447,7 @@ theorem simpleNum_tot {d : Bytes} {s : PState} (h : FP d s) {obj : Nat} (ho : li
   obtain ⟨res, s2, e2, h2, hp2, ⟨v, hv⟩, hres⟩ := setNumValue_tot h1 ho1 n
   refine bind_ex e2 ?_
   have ho2 : live s2.tree obj = true := by rw [hp2.links.live]; exact ho1
-  obtain ⟨a, s3, e3, ha, h3, hp3, hr3, hv3⟩ := finishSimpleArg_tot h2 ho2 res (by rw [hv, hsl1]; exact hinfo)
+  obtain ⟨a, s3, e3, ha, h3, hp3, hr3, hv3⟩ := finishSimpleArg_tot h2 ho2 res (by rw [hv, hsl1]; exact hinfo) (by rw [hv, hsl1]; exact hnm)
   refine ⟨a, s3, e3, by rw [ha], h3, (hp1.trans hp2).trans hp3, ⟨v, by rw [hv3, hv]⟩, ?_⟩
   rw [ha, hr3, ← hr1]; exact hres
 
@@ -459,7 +461,7 @@ theorem simpleString_tot {d : Bytes} {s : PState} (h : FP d s) {obj : Nat} (ho :
   obtain ⟨res, s2, e2, h2, hp2, hres, ⟨v, hv⟩⟩ := setStringValue_tot h1 ho1
   refine bind_ex e2 ?_
   have ho2 : live s2.tree obj = true := by rw [hp2.links.live]; exact ho1
-  obtain ⟨a, s3, e3, ha, h3, hp3, hr3, _⟩ := finishSimpleArg_tot h2 ho2 res (by rw [hv, hsl1]; exact info_const.2.2.2.2.2.1)
+  obtain ⟨a, s3, e3, ha, h3, hp3, hr3, _⟩ := finishSimpleArg_tot h2 ho2 res (by rw [hv, hsl1]; exact info_const.2.2.2.2.2.1) (by rw [hv, hsl1]; exact (show isK opStringPrefix = false by decide))
   refine ⟨a, s3, e3, by rw [ha], h3, (hp1.trans hp2).trans hp3, ?_⟩
   unfold Prog at hres ⊢
   rw [ha, hr3, ← hr1]; exact hres
@@ -474,7 +476,7 @@ theorem simpleName_tot {d : Bytes} (hd : d.size + 1024 ≤ 4294967296) {s : PSta
   obtain ⟨res, s2, e2, h2, hp2, hres, ⟨v, hv⟩⟩ := setNameValue_tot hd h1 ho1
   refine bind_ex e2 ?_
   have ho2 : live s2.tree obj = true := by rw [hp2.links.live]; exact ho1
-  obtain ⟨a, s3, e3, ha, h3, hp3, hr3, _⟩ := finishSimpleArg_tot h2 ho2 res (by rw [hv, hsl1]; exact info_const.2.2.2.2.2.2.1)
+  obtain ⟨a, s3, e3, ha, h3, hp3, hr3, _⟩ := finishSimpleArg_tot h2 ho2 res (by rw [hv, hsl1]; exact info_const.2.2.2.2.2.2.1) (by rw [hv, hsl1]; exact (show isK opIntNamePath = false by decide))
   refine ⟨a, s3, e3, by rw [ha], h3, (hp1.trans hp2).trans hp3, ?_⟩
   unfold Prog at hres ⊢
   rw [ha, hr3, ← hr1]; exact hres
@@ -609,6 +611,8 @@ structure KFr (s s' : PState) : Prop where
   nameKK : ∀ x, live s.tree x = true → isK (slot s.tree x).opcode = true → (slot s'.tree x).name = (slot s.tree x).name ∧
     (slot s'.tree x).tableHandle = (slot s.tree x).tableHandle
   deadK : ∀ x, live s'.tree x = false → (slot s'.tree x).name = (slot s.tree x).name
+  /-- an object with an opcode of `isK` keeps its table row -/
+  infoKK : ∀ x, live s.tree x = true → isK (slot s.tree x).opcode = true → (slot s'.tree x).infoIndex = (slot s.tree x).infoIndex
 
 theorem KFr.isKeq {s s' : PState} (h : KFr s s') {x : Nat} (hx : live s.tree x = true) :
     isK (slot s'.tree x).opcode = isK (slot s.tree x).opcode := by
@@ -646,11 +650,11 @@ theorem KFr.bK {s s' : PState} (h : KFr s s') (x : Nat) (hx : live s.tree x = tr
     · intro hq; rw [hq, isK_block] at e2; cases e2
     · intro hq; rw [hq, isK_block] at e1; cases e1
 
-theorem KFr.refl (s : PState) : KFr s s := ⟨fun _ _ => Or.inl rfl, fun _ _ _ => ⟨rfl, rfl⟩, fun _ _ => rfl⟩
+theorem KFr.refl (s : PState) : KFr s s := ⟨fun _ _ => Or.inl rfl, fun _ _ _ => ⟨rfl, rfl⟩, fun _ _ => rfl, fun _ _ _ => rfl⟩
 
 theorem KFr.trans {a b c : PState} (h1 : KFr a b) (h2 : KFr b c) (hl : ∀ x, live a.tree x = true → live b.tree x = true)
     (hl2 : ∀ x, live b.tree x = true → live c.tree x = true) : KFr a c := by
-  refine ⟨?_, ?_, ?_⟩
+  refine ⟨?_, ?_, ?_, ?_⟩
   · intro x hx
     rcases h1.opK x hx with e1 | ⟨a1, b1⟩
     · rcases h2.opK x (hl x hx) with e2 | ⟨a2, b2⟩
@@ -668,12 +672,15 @@ theorem KFr.trans {a b c : PState} (h1 : KFr a b) (h2 : KFr b c) (hl : ∀ x, li
       | false => rfl
       | true => rw [hl2 x hq] at hx; cases hx
     rw [h2.deadK x hx, h1.deadK x hb]
+  · intro x hx ho
+    rw [h2.infoKK x (hl x hx) (by rw [h1.isKeq hx]; exact ho), h1.infoKK x hx ho]
 
 theorem KFr.ofTree {s s' : PState} (ht : s'.tree = s.tree) : KFr s s' :=
-  ⟨fun _ _ => by rw [ht]; exact Or.inl rfl, fun _ _ _ => by rw [ht]; exact ⟨rfl, rfl⟩, fun _ _ => by rw [ht]⟩
+  ⟨fun _ _ => by rw [ht]; exact Or.inl rfl, fun _ _ _ => by rw [ht]; exact ⟨rfl, rfl⟩, fun _ _ => by rw [ht],
+   fun _ _ _ => by rw [ht]⟩
 
 theorem KFr.ofPay {obj : Nat} {s s' : PState} (h : PayOnly obj s s') (ho : live s.tree obj = true) : KFr s s' := by
-  refine ⟨?_, ?_, ?_⟩
+  refine ⟨?_, ?_, ?_, ?_⟩
   · intro x _
     by_cases hx : x = obj
     · rw [hx]; exact h.opc
@@ -685,17 +692,21 @@ theorem KFr.ofPay {obj : Nat} {s s' : PState} (h : PayOnly obj s s') (ho : live 
   · intro x hx
     have hne : x ≠ obj := fun e => by rw [e, h.links.live, ho] at hx; cases hx
     rw [h.others x hne]
+  · intro x _ ho
+    by_cases hx : x = obj
+    · rw [hx] at ho ⊢; exact h.vik ho
+    · rw [h.others x hx]
 
 theorem KFr.ofSamePay {s s' : PState} (sp : SamePay s.tree s'.tree) : KFr s s' :=
   ⟨fun x _ => Or.inl (congrArg (fun p => p.1) (sp.pay x)),
    fun x _ _ => ⟨congrArg (fun p => p.2.2.2.1) (sp.pay x), congrArg (fun p => p.2.2.1) (sp.pay x)⟩,
-   fun x _ => congrArg (fun p => p.2.2.2.1) (sp.pay x)⟩
+   fun x _ => congrArg (fun p => p.2.2.2.1) (sp.pay x), fun x _ _ => congrArg (fun p => p.2.1) (sp.pay x)⟩
 
 theorem KFr.ofFresh {n : Nat} {s s' : PState} (h : Fresh1 n s s') : KFr s s' :=
   ⟨fun x hx => by rw [h.old x (h.ne hx)]; exact Or.inl rfl, fun x hx _ => by rw [h.old x (h.ne hx)]; exact ⟨rfl, rfl⟩,
    fun x hx => by
      have hne : x ≠ n := fun e => by rw [e, h.liven] at hx; cases hx
-     rw [h.old x hne]⟩
+     rw [h.old x hne], fun x hx _ => by rw [h.old x (h.ne hx)]⟩
 
 /-- steps that leave both stacks alone: the reader goes back at most `b` bytes, at most `m` objects are created,
 parents of existing objects are untouched.  `T` = the parents whose argument lists the step may change: outside of
@@ -771,7 +782,7 @@ theorem GrowE.thenLex {b m b' : Nat} {a c c' : PState} (h : GrowE T b m a c) (hc
     fun x hx hT => by rw [ht]; exact h.fiK x hx hT, fun x hx hp hT => by rw [ht]; exact h.kidK x hx hp hT,
     fun x hx hT hp => by rw [ht]; exact h.payK x hx hT hp,
     ⟨fun x hx => by rw [ht]; exact h.kfr.opK x hx, fun x hx ho => by rw [ht]; exact h.kfr.nameKK x hx ho,
-     fun x hx => by rw [ht] at hx ⊢; exact h.kfr.deadK x hx⟩,
+     fun x hx => by rw [ht] at hx ⊢; exact h.kfr.deadK x hx, fun x hx ho => by rw [ht]; exact h.kfr.infoKK x hx ho⟩,
     fun y h1 h2 => by rw [ht] at h2 ⊢; exact h.newK y h1 h2⟩
 
 /-- a payload-only step on a detached object other than the root -/
@@ -1163,13 +1174,17 @@ theorem parseByteList_tot {d : Bytes} (hd : d.size + 1024 ≤ 4294967296) {s : P
     unfold KeepsLive
     have hne : opIntByteList ≠ pOpIntFreedObject := by decide
     exact ⟨fun hc => absurd hc hne, fun hc => absurd hc (live_opcode ho)⟩
-  obtain ⟨s1, e1, h1, hp1, _, hr1⟩ := upd_step h ho (fun o => { o with opcode := opIntByteList }) (by keeps_links) hl
+  obtain ⟨s1, e1, h1, hp1, hsl1, hr1⟩ := upd_step h ho (fun o => { o with opcode := opIntByteList }) (by keeps_links) hl
     (h.tree.info obj ho) (Or.inr ⟨hcur, (show isK opIntByteList = false by decide)⟩) (fun hq => by simp [hcur] at hq)
   refine bind_ex e1 ?_
   have ho1 : live s1.tree obj = true := by rw [hp1.links.live]; exact ho
   obtain ⟨s2, e2, h2, hp2, _, hr2⟩ := upd_step h1 ho1
     (fun o => { o with infoIndex := pOpcodeTableIndex opIntByteList true }) (by keeps_links) Iff.rfl
-    (by dsimp only; exact info_const.2.2.2.2.2.2.2.1)
+    (by dsimp only; exact info_const.2.2.2.2.2.2.2.1) (Or.inl rfl) (fun _ => ⟨rfl, rfl⟩)
+    (fun hq => by
+      rw [hsl1] at hq
+      have : isK opIntByteList = true := hq
+      exact absurd this (by decide))
   refine bind_ex e2 ?_
   obtain ⟨sl, s3, e3, h3, hR3, hs3⟩ := lex_step (rel_parseByteListRaw d n) h2
   refine bind_ex e3 ?_
